@@ -1,6 +1,8 @@
 (* C16 - "dropping the output stream shuts the pipe down" (Pipe layer).
-   Proved for every set of facts with [f_pending_recheck = true] (the intended repair of the Pending arm);
-   refuted for the current code by a concrete schedule. *)
+   Proved for every set of facts with [f_pending_recheck = true] (the repair of the Pending arm) and
+   [f_drop_wakes_before_dispose = true] (Drop for PipeStream wakes notify_stream_closed before it hands on_drop to the
+   disposal queue); refuted by concrete schedules when either fact is false.  Slow items ([init_slow]) included: the drop
+   may land while an item is suspended. *)
 From stdpp Require Import list numbers option.
 From Pipe Require Import Model Base Drop Scenarios Refute.
 
@@ -8,21 +10,65 @@ From Pipe Require Import Model Base Drop Scenarios Refute.
    at the top of Drop.v: with the drop landing on a throttled producer poll_fn is never set to None, the input stream
    and the closure are freed by reference counting instead). *)
 Theorem C16_drop_shuts_down :
-  forall (F : pfacts) (f : nat -> nat), F.(f_pending_recheck) = true ->
-  forall inputs ext tr s,
-    run F f (init F inputs ext) tr = Some s ->
+  forall (F : pfacts) (f : nat -> nat), F.(f_pending_recheck) = true -> F.(f_drop_wakes_before_dispose) = true ->
+  forall inputs sl ext tr s,
+    run F f (init_slow F inputs sl ext) tr = Some s ->
     dropped s = true -> terminal_silent F f s ->
     s.(strong_held) = false /\ released s = true /\ s.(cst) = CGone.
 Proof. exact drop_shuts_down. Qed.
 Print Assumptions C16_drop_shuts_down.
 
-Theorem C16_holds_with_recheck : forall F, F.(f_pending_recheck) = true -> C16_statement F.
+Theorem C16_holds_with_recheck :
+  forall F, F.(f_pending_recheck) = true -> F.(f_drop_wakes_before_dispose) = true -> C16_statement F.
 Proof. exact C16_holds_with_recheck. Qed.
 Print Assumptions C16_holds_with_recheck.
 
+(* C16, the pipe as LAST owner of the Desync (the caller dropped its handle before dropping the stream): in every terminal
+   state after the drop, with a silent input and no other owner, the object has been freed - exactly once, see
+   C16_freed_at_most_once - nobody is left inside Desync::drop ([syncers s = 0]), no strong reference exists, and the
+   stream-core lock is free: the thread in Drop::drop has left its critical section ([cst s = CGone]), i.e. there is no
+   deadlock between PipeStream::drop and the final sync of Desync::drop. *)
+Theorem C16_last_owner_drop :
+  forall (F : pfacts) (f : nat -> nat), F.(f_pending_recheck) = true -> F.(f_drop_wakes_before_dispose) = true ->
+  forall inputs sl ext tr s,
+    run F f (init_slow F inputs sl ext) tr = Some s ->
+    dropped s = true -> terminal_silent F f s -> s.(ext_owner) = false ->
+    s.(freed) = 1 /\ s.(cst) = CGone /\ core_locked s = false /\ syncers s = 0 /\ desync_alive s = false.
+Proof. exact last_owner_drop. Qed.
+Print Assumptions C16_last_owner_drop.
+
+(* for ALL facts: the object is never freed twice *)
+Theorem C16_freed_at_most_once :
+  forall (F : pfacts) (f : nat -> nat) inputs sl ext tr s,
+    run F f (init_slow F inputs sl ext) tr = Some s -> s.(freed) <= 1.
+Proof. exact freed_at_most_once. Qed.
+Print Assumptions C16_freed_at_most_once.
+
+Example C16_last_owner_drop_nonvacuous :
+  let '(s, tr) := phases facts_repaired [[AExtDrop]; [AProd]; [ACDrop]; no_input_events] (init facts_repaired [1] true) in
+  run facts_repaired f100 (init facts_repaired [1] true) tr = Some s /\
+  dropped s = true /\ terminal_silentb facts_repaired f100 s = true /\ s.(ext_owner) = false /\ s.(freed) = 1.
+Proof. vm_compute. split_and!; reflexivity. Qed.
+
+(* The swapped order (on_drop queued BEFORE notify_stream_closed is woken) is refuted by Scenarios.swapped_drop_deadlock =
+     [AExtDrop; AProd x6; ACDrop; ACons; ACons; ADispose; ACons; AProd; AProd]:
+   the chute drops the pipe's Arc between target.upgrade() and the end of PipeContext::poll, the temporary Arc becomes the last
+   one, Desync::drop runs its sync inside the poll while Drop::drop holds the core lock, and the closing poll job blocks on
+   that lock. *)
+Theorem C16_last_owner_drop_refuted : ~ C16_last_owner_statement facts_swapped_drop.
+Proof. exact C16_last_owner_refuted_swapped. Qed.
+Print Assumptions C16_last_owner_drop_refuted.
+Theorem C16_last_owner_drop_refuted_detail :
+  exists s, run facts_swapped_drop f100 (init facts_swapped_drop [1] true) swapped_drop_deadlock = Some s /\
+            dropped s = true /\ terminal_silent facts_swapped_drop f100 s /\ s.(ext_owner) = false /\
+            s.(cst) = CDrop1 /\ core_locked s = true /\ s.(cwk) = WSync /\ s.(running) = Some (1, JFull) /\
+            s.(freed) = 0.
+Proof. exact swapped_drop_state. Qed.
+Print Assumptions C16_last_owner_drop_refuted_detail.
+
 (* the hypotheses are satisfiable: Scenarios.c16_witness continued under the repaired facts *)
 Example C16_drop_shuts_down_nonvacuous :
-  match run facts_repaired f100 (init facts_repaired [1] false) (c16_witness ++ [AProd]) with
+  match run facts_repaired f100 (init facts_repaired [1] false) (c16_witness_core ++ [AProd; ADispose]) with
   | Some s => dropped s = true /\ terminal_silentb facts_repaired f100 s = true
   | None => False
   end.
@@ -30,7 +76,7 @@ Proof. vm_compute. split; reflexivity. Qed.
 Check terminal_silentb_sound : forall F f s, terminal_silentb F f s = true -> terminal_silent F f s.
 
 (* The current code: refuted by Scenarios.c16_witness =
-     [AProd; AProd; AProd; AProd; AProd; ACDrop; ACons; ACons; ADispose; AProd]
+     [AProd; AProd; AProd; AProd; AProd; ACDrop; ACons; ACons; ADispose; AProd; ADispose]
    (the drop lands after the job's `closed` test and `notify_stream_closed = None`, before the Pending arm stores the
    waker; see the line-by-line translation in Scenarios.v). *)
 Theorem C16_refuted : ~ C16_statement facts_unrepaired.
